@@ -344,7 +344,8 @@ func runCell(c *Cell) []result {
 	fail := func(kind, why, text string) {
 		out = append(out, result{Ev: "case", OK: false, Kind: kind, Why: why, Text: text, Cell: c})
 	}
-	if c.Src == "" {
+	srcHow := c.Src
+	if c.Src == "" || c.What == "reread" {
 		c.Src = "int64"
 	}
 	for d := 0; d < c.Draws; d++ {
@@ -543,6 +544,70 @@ func runCell(c *Cell) []result {
 			}
 			if df := diff(before, after, ""); len(df) > 0 {
 				fail("collateral-change", strings.Join(df, "; "), text)
+				continue
+			}
+			out = append(out, result{Ev: "case", OK: true})
+		case "reread":
+			// c.Src holds how the data changes between the two reads: "value" (in place, by the host between two
+			// executions), "pointer" (the host replaces the pointer on the path), "inrule" (an injected function
+			// called by the rule replaces it between two reads inside one execution)
+			how := srcHow
+			tt, _, get, _ := w.target(c.Path, c.Kind)
+			if how != "value" && c.Path != "field2" {
+				out = append(out, result{Ev: "case", OK: true, Skipped: "only the two-level field path has a pointer to replace"})
+				continue
+			}
+			newv := mk(c.Kind, float64(60+r.Intn(30)), "fresh", true)
+			mutate := func() {
+				switch how {
+				case "value":
+					if c.Path == "mapstr" {
+						w.dyn["ms"].SetMapIndex(reflect.ValueOf("k"), newv)
+					} else {
+						get().Set(newv)
+					}
+				default:
+					ni := *w.obj.In
+					w.obj.In = &ni
+					reflect.ValueOf(w.obj.In).Elem().FieldByName("F" + c.Kind).Set(newv)
+				}
+			}
+			dc := context.NewDataContext()
+			w.inject(dc)
+			dc.Add("swap", func() { mutate() })
+			var text string
+			if how == "inrule" {
+				text = fmt.Sprintf("rule \"r\" begin\n  first = %s\n  swap()\n  return %s\nend\n", tt, tt)
+			} else {
+				text = fmt.Sprintf("rule \"r\" begin\n  return %s\nend\n", tt)
+			}
+			rb := builder.NewRuleBuilder(dc)
+			if err := rb.BuildRuleFromString(text); err != nil {
+				fail("compile", err.Error(), text)
+				continue
+			}
+			g := engine.NewGengine()
+			var res map[string]interface{}
+			var err error
+			if how == "inrule" {
+				err = g.Execute(rb, true)
+				res, _ = g.GetRulesResultMap()
+			} else {
+				err = g.Execute(rb, true)
+				first, _ := g.GetRulesResultMap()
+				_ = first
+				mutate()
+				if err == nil {
+					err = g.Execute(rb, true)
+				}
+				res, _ = g.GetRulesResultMap()
+			}
+			if err != nil {
+				fail("read-fails", err.Error()[:min(200, len(err.Error()))], text)
+				continue
+			}
+			if !reflect.DeepEqual(res["r"], newv.Interface()) {
+				fail("stale-read", fmt.Sprintf("read %#v after the data changed (%s) to %#v", res["r"], how, newv.Interface()), text)
 				continue
 			}
 			out = append(out, result{Ev: "case", OK: true})
